@@ -336,8 +336,12 @@ class Runner:
             try:
                 return await real_update(address, remote_status, address_manager, reattempt_update)
             except Exception as e:   # the TaskGroup would swallow it; the monitor must see it
+                import traceback
+                tb = traceback.extract_tb(e.__traceback__)
                 me.errors.append({'address': me.world.id_of_addr.get(address), 'error': type(e).__name__,
-                                  'message': str(e)[:200]})
+                                  'message': str(e)[:200],
+                                  'where': [f'{os.path.basename(f.filename)}:{f.lineno}:{f.name}' for f in tb
+                                            if '/lbry/' in f.filename][-4:]})
                 raise
 
         async def get_local_status_and_history(address, history=None):
